@@ -35,6 +35,7 @@ inductive Err where
   | attributeError   -- `free()` on a `SlicedMemoryIO` (it has no such method)
   | transferError    -- the controller's read/write raised (SCPError: timeout, fatal return code);
                      -- it propagates unchanged through the view's read/write
+  | truncation       -- a `TruncationWarning` turned into an exception by the caller's warnings filter
   | other            -- any other exception (observed only; the model never raises it)
   deriving Repr, DecidableEq
 
@@ -104,11 +105,13 @@ inductive Op where
   | close (i : Nat)
   | free (i : Nat)
   | freeFail (i : Nat)                             -- `free()` while the controller's `sdram_free` raises
+  | enter (i : Nat)                                -- `view.__enter__()` (start of a `with view:` block)
+  | exitBlock (i : Nat) (raised : Bool)            -- `view.__exit__(...)`: the block ended normally / by an exception
   deriving Repr, DecidableEq
 
 def Op.target : Op → Nat
   | .seek i _ _ | .read i _ | .write i _ | .readFail i _ | .writeFail i _ _ | .slice i _ _ _ | .index i | .tell i
-  | .address i | .len i | .flush i | .close i | .free i | .freeFail i => i
+  | .address i | .len i | .flush i | .close i | .free i | .freeFail i | .enter i | .exitBlock i _ => i
 
 /-! ## The code -/
 
@@ -276,11 +279,35 @@ def stepView (w : World) (v : View) : Op → World × Out
   | .close i => doClose w i v
   | .free i => doFree w i v
   | .freeFail i => doFreeFail w i v
+  | .enter i => done w (.view i)          -- `__enter__` returns the view itself (no check)
+  | .exitBlock i _ => doClose w i v       -- `__exit__` calls `close()` however the block was left
 
 def step (w : World) (op : Op) : World × Out :=
   match w.views[op.target]? with
   | none => (w, ⟨.noSuchView, false, none⟩)
   | some v => stepView w v op
+
+/-- would this call issue a `TruncationWarning`?  (it is issued before anything is transferred) -/
+def strictFails (w : World) (v : View) : Op → Bool
+  | .read _ n | .readFail _ n => !dead w v && (readCount v n).1
+  | .write _ d | .writeFail _ d _ => !dead w v && (writeData v d).1
+  | _ => false
+
+/-- one call while the caller's warnings filter turns `TruncationWarning` into an exception
+(`warnings.simplefilter('error', TruncationWarning)`, as the docstrings of read/write suggest) when
+`strict`: the warning is raised out of `warnings.warn`, before the transfer and before the position
+moves - nothing happens.  `strict = false` is `step`. -/
+def stepS (w : World) (op : Op) (strict : Bool) : World × Out :=
+  match w.views[op.target]? with
+  | none => step w op
+  | some v => if strict && strictFails w v op then (w, ⟨.err .truncation, true, none⟩) else step w op
+
+def runS (w : World) : List (Op × Bool) → List Out × World
+  | [] => ([], w)
+  | (op, s) :: ops =>
+    let (w', o) := stepS w op s
+    let (os, w'') := runS w' ops
+    (o :: os, w'')
 
 /-- a history: the outputs in order and the final world -/
 def run (w : World) : List Op → List Out × World
@@ -431,6 +458,11 @@ def specIO (v : View) (f : File) : Op → Option SpecOut
   | .flush _ => some ⟨.none, false, v, f.data, 0, false, []⟩
   | _ => none
 
+/-- the specification of a call made while `TruncationWarning` is an error: a call that would be
+truncated raises instead - nothing is transferred, nothing moves; any other call is unaffected -/
+def strictSpec (v : View) (f : File) (s : SpecOut) : SpecOut :=
+  if s.warn then { s with ret := .err .truncation, post := v, data := f.data, moved := 0, wrote := [] } else s
+
 /-- specification of slicing: the new view covers exactly the named sub-range -/
 def specSlice (v : View) (a b : Option Int) : View :=
   let (lo, hi) := sliceRange v.len a b
@@ -487,6 +519,7 @@ structure Obs where
   base : Int                 -- observed memory window `[base, base + before.length)`
   before : List Nat
   after : List Nat
+  strict : Bool := false     -- the call ran with `TruncationWarning` turned into an exception
 
 def expectWindow (o : Obs) (data : List Nat) : List Nat :=
   o.before.take (o.pre.start - o.base).toNat ++ data ++ o.before.drop (o.pre.stop - o.base).toNat
@@ -525,10 +558,12 @@ def checkObs (o : Obs) : List String :=
          then [] else ["dead"])
       else
         -- 3. bounded file
-        match specIO v (if viewInWindow o then absFileWin o.base o.before v
-                        else absFile (winMem o.base o.before) v) o.op with
+        let f := if viewInWindow o then absFileWin o.base o.before v else absFile (winMem o.base o.before) v
+        match specIO v f o.op with
         | none => []
-        | some s =>
+        | some s0 =>
+          -- with warnings as errors a call that would be truncated raises instead and does nothing
+          let s := if o.strict then strictSpec v f s0 else s0
           (if o.out.ret = s.ret then [] else ["file-result"]) ++
           (if o.out.warn = s.warn then [] else ["file-warning"]) ++
           (if o.post = s.post then [] else
@@ -559,6 +594,12 @@ def checkObs (o : Obs) : List String :=
           (if o.post = v ∧ o.after = o.before ∧ o.out.access = none then [] else ["slice-effect"])
         else []
       | .len _ => if o.out.ret = .int v.len ∧ o.post = v ∧ o.after = o.before then [] else ["file-result"]
+      | .close _ | .exitBlock _ _ =>
+        -- 5. `close()` and leaving a with-block - normally OR through an exception - close the view
+        -- (unless the allocation was freed: then `close()` raises and nothing changes)
+        if o.preFreed && !v.closed then []
+        else if o.post = { v with closed := true } ∧ o.postFreed = o.preFreed ∧ o.after = o.before ∧
+                o.out = ⟨.none, false, none⟩ then [] else ["not-closed"]
       | .freeFail _ =>
         -- a `free()` whose `sdram_free` failed frees nothing: state after = state before
         if o.out.ret = .err .transferError then
@@ -598,7 +639,14 @@ def opOfJson (j : Json) : R Op := do
   | "address" => pure (.address i)
   | "len" => pure (.len i)
   | "flush" => pure (.flush i)
-  | "close" => pure (.close i)
+  | "close" =>
+    -- `close()`; with "with": leaving a with-block normally (true) or by an exception ("exc")
+    match j.getObjVal? "with" with
+    | .ok (.bool true) => pure (.exitBlock i false)
+    | .ok (.str _) => pure (.exitBlock i true)
+    | _ => pure (.close i)
+  | "enter" => pure (.enter i)
+  | "exit" => pure (.exitBlock i (← bool j "raised"))
   | "free" =>
     match ← opt j "fault" asInt with
     | none => pure (.free i)
@@ -610,6 +658,7 @@ def errName : Err → String
   | .valueError => "ValueError"
   | .attributeError => "AttributeError"
   | .transferError => "TransferError"
+  | .truncation => "TruncationWarning"
   | .other => "Other"
 
 open Rig.P in
@@ -648,6 +697,7 @@ def retOfJson (j : Json) : R Ret :=
         | "ValueError" => pure (.err .valueError)
         | "AttributeError" => pure (.err .attributeError)
         | "TransferError" => pure (.err .transferError)
+        | "TruncationWarning" => pure (.err .truncation)
         | _ => pure (.err .other)
 
 open Rig.P in
@@ -684,8 +734,10 @@ def handle (op : String) (j : Json) : R Json := do
       | "alloc" => pure (allocAsFilelike x y (← int j "start") (← int j "size") m)
       | "vertex" => pure (allocForVertex x y (← int j "start") (← int j "s0") (← int j "s1") m)
       | md => .error s!"unknown mode {md}" : R World)
-    let ops ← (← arr j "ops").mapM opOfJson
-    let (outs, w) := run w0 ops
+    let ops ← (← arr j "ops").mapM (fun o => do
+      let strict ← (do match ← opt o "werr" asBool with | some b => pure b | none => pure false : R Bool)
+      pure (← opOfJson o, strict) : Json → R (Op × Bool))
+    let (outs, w) := runS w0 ops
     pure (Json.mkObj [("outs", jList (outs.map jOut)), ("views", jList (w.views.map jView)),
                       ("freed", Json.bool w.freed), ("win", jNats (readMem w.mem base win.length))])
   | "check" =>
@@ -697,18 +749,31 @@ def handle (op : String) (j : Json) : R Json := do
     let steps ← arr j "steps"
     let mut before := win0
     let mut res : List Json := []
+    -- views the specification says are closed (a `close()` / with-block exit happened on them while the
+    -- allocation was not freed): every later call on them is judged as a call on a closed view, whatever
+    -- the implementation's own flag says
+    let mut closedBySpec : List Nat := []
     for s in steps do
       let after ← nats s "win"
       -- `wb`: the window just before this call when another owner's call changed it in between
       match ← opt s "wb" (fun a => do (← asArr a).mapM asNat) with
       | some b => before := b
       | none => pure ()
+      let op ← opOfJson (← field s "op")
+      let pre0 ← viewOfJson (← field s "pre")
+      let post0 ← viewOfJson (← field s "post")
+      let pre := if closedBySpec.contains op.target then { pre0 with closed := true } else pre0
+      let strict ← (do match ← opt (← field s "op") "werr" asBool with | some b => pure b | none => pure false : R Bool)
       let o : Obs := {
-        x := x, y := y, isRoot := ← bool s "root", pre := ← viewOfJson (← field s "pre"),
-        preFreed := ← bool s "freed", op := ← opOfJson (← field s "op"), out := ← outOfJson (← field s "out"),
-        post := ← viewOfJson (← field s "post"), postFreed := ← bool s "pfreed",
-        newView := ← opt s "nv" viewOfJson, base := base, before := before, after := after }
+        x := x, y := y, isRoot := ← bool s "root", pre := pre,
+        preFreed := ← bool s "freed", op := op, out := ← outOfJson (← field s "out"),
+        post := (if closedBySpec.contains op.target then { post0 with closed := true } else post0),
+        postFreed := ← bool s "pfreed",
+        newView := ← opt s "nv" viewOfJson, base := base, before := before, after := after, strict := strict }
       res := res ++ [jList ((checkObs o).map Json.str)]
+      match op with
+      | .close i | .exitBlock i _ => if !o.preFreed then closedBySpec := i :: closedBySpec
+      | _ => pure ()
       before := after
     -- a view obtained from an allocation of `size` bytes at `abase` must span exactly that allocation
     let rootFails ← (do
